@@ -7,11 +7,14 @@ wt=$(mktemp -d /tmp/harmless-wt.XXXXXX); rmdir $wt
 git -C /repo worktree add --detach -q $wt HEAD || exit 9
 declare -A PROPS=( [nonnegmean]="C01 C05 C11 C12 C13 C16" [audit]="C02 C03 C06 C07 C08 C09 C10 C16 C18" [raire_formats]="C04 C14 C15 C17 C18 C19 C20" )
 : > $out
-for set in nonnegmean audit raire_formats; do
+for set in ${HARMLESS_SETS:-nonnegmean audit raire_formats core2 raire_formats2}; do
   for f in /verif/harmless/$set/h*.diff; do
     n=$(basename $f .diff)
     git -C $wt checkout -q -- . ; git -C $wt apply --whitespace=nowarn $f || { echo "$set/$n APPLY-FAIL" >> $out; continue; }
-    for p in ${PROPS[$set]}; do
+    props=${PROPS[$set]}
+    # second-wave sets list the properties each refactored function is anchored in (props.txt: "hNN: Cxx Cyy")
+    [ -f /verif/harmless/$set/props.txt ] && props=$(grep "^$n:" /verif/harmless/$set/props.txt | cut -d: -f2)
+    for p in $props; do
       res=$(cd /verif && SHANGRLA_REPO=$wt PYVC_NO_EVIDENCE=1 PYVC_REPLAY_DIR=/verif/replays/tmp-harmless python3-vt checks/check.py $p --tier quick 2>&1 | grep -E "VIOLATION|UNDECIDED|ENGINE|SKIPPED|obligations" | cut -c1-220 | tr '\n' '|')
       echo "$set/$n $p $res" >> $out
     done
